@@ -15,7 +15,7 @@ LEXER_BOUNDED = ('sub-lexer contracts found_ok for lex_spaces/lex_tabs/lex_newli
 PROPS = {
     'C01': dict(
         level='proof',
-        verus=['span', 'patterns', 'lexing', 'url', 'edit_distance', 'mask', 'document'],
+        verus=['span', 'patterns', 'lexing', 'url', 'jsdoc', 'edit_distance', 'mask', 'document'],
         kani_quick=['lexing.whitespace_5', 'jsdoc.parse_inline_tag_4', 'jsdoc.parse_inline_tag_5'],
         rac=['document_tiles', 'remove_indices', 'condense_indices', 'markdown_tokens', 'comment_frontends'],
         kani_thorough=['lexing.whitespace_5', 'lexing.whitespace_8', 'lexing.hex_4', 'lexing.hostname_4', 'lexing.url_4', 'lexing.email_4',
@@ -30,7 +30,7 @@ PROPS = {
         assumptions=[LEXER_BOUNDED,
                      'VecExt::remove_indices contract assumed in Verus (checked by bounded-rac under C13)',
                      'Document passes: preconditions sum of whitespace counts <= usize::MAX and token count + 4 <= usize::MAX (machine assumptions)',
-                     'jsdoc parse_inline_tag harnesses are bounded (token sequences of length <= 6, 6 token kinds): bounded, not proved; mark_inline_tags is unverified (a Kani harness for it crashes kani-compiler 0.68)'],
+                     'jsdoc: parse_inline_tag is PROVED (unit jsdoc, R6) and additionally run through bounded Kani harnesses (length <= 6); mark_inline_tags is unverified by both verifiers (closures / kani-compiler 0.68 crash) and covered by rac:comment_frontends only'],
     ),
     'C02': dict(
         level='proof',
